@@ -132,7 +132,9 @@ def check(run):
     imps = [n for n in ast.walk(lp) if isinstance(n, ast.Call) and prog.dotted(rm, n.func) == "importlib.import_module"]
     need(len(imps) == 1, "anchor: one import_module call in get_analyzers")
     imp = imps[0]
-    az = G.Atomizer(rename={INC: "INCLUDE", EXC: "EXCLUDE"}, rewrite=[(f"{MI}.name", "NAME")])
+    env_imp = common.block_env(lp.body, common.enclosing_stmt(imp)) or {}
+    env_imp = {k: v for k, v in env_imp.items() if k not in (INC, EXC, MI)}
+    az = G.Atomizer(rename={INC: "INCLUDE", EXC: "EXCLUDE"}, subst=env_imp, rewrite=[(f"{MI}.name", "NAME")])
     pc = G.reach(lp.body, common.enclosing_stmt(imp), az)
     spec = G.Atomizer().formula(common.spec_expr(SPEC.C18_FILTER))
     ok, cm = G.equivalent(pc, spec)
@@ -155,7 +157,7 @@ def check(run):
         run.ob("R3-filter", f"registry.get_analyzers/{'include' if P == INC else 'exclude'}-normalisation", okn, w(stores[0]) if stores else w(ga.node),
                "the include/exclude argument is only converted to a set (same members, empty when absent)", det, mech="assignment-shape match")
     # import target and member collection
-    tgt_ok = len(imp.args) >= 1 and norm_src(imp.args[0]) in (f"'.' + {MI}.name", f"f'.{{{MI}.name}}'") and any(
+    tgt_ok = len(imp.args) >= 1 and norm_src(G.Atomizer(subst=env_imp).inline(imp.args[0])) in (f"'.' + {MI}.name", f"f'.{{{MI}.name}}'") and any(
         kw.arg == "package" and prog.dotted(rm, kw.value) == "multidecoder.decoders.__name__" for kw in imp.keywords)
     run.ob("R3-filter", "registry.get_analyzers/import-target", tgt_ok, w(imp), "the module imported is the enumerated sub-module of multidecoder.decoders",
            f"`{norm_src(imp)}`", mech="call-shape match")
@@ -176,6 +178,24 @@ def check(run):
                     if want and G.equivalent(pcm, azm.formula(want[0]))[0]:
                         mem_ok = True
                         OUTV = norm_src(apps[0].func.value)
+                        retn = [r for r in own_nodes(ga.node) if isinstance(r, ast.Return)]
+                        mem_ok = bool(retn) and all(norm_src(r.value) == OUTV for r in retn)
+    if not mem_ok:
+        # the same collection written as OUT.extend(f for _, f in getmembers(SUB, isfunction) if <marker test>)
+        for n in ast.walk(lp):
+            if isinstance(n, ast.Call) and isinstance(n.func, ast.Attribute) and n.func.attr == "extend" and len(n.args) == 1 and \
+                    isinstance(n.args[0], (ast.GeneratorExp, ast.ListComp)) and len(n.args[0].generators) == 1:
+                gen = n.args[0].generators[0]
+                envg = common.block_env(lp.body, common.enclosing_stmt(n)) or {}
+                itn = peel_order(G.Atomizer(subst={k: v for k, v in envg.items() if k != SUB}).inline(gen.iter))
+                fn_var = gen.target.elts[1].id if isinstance(gen.target, ast.Tuple) and len(gen.target.elts) == 2 and isinstance(gen.target.elts[1], ast.Name) else None
+                if fn_var and isinstance(itn, ast.Call) and prog.dotted(rm, itn.func) == "inspect.getmembers" and len(itn.args) == 2 and \
+                        common.is_name(itn.args[0], SUB) and prog.dotted(rm, itn.args[1]) == "inspect.isfunction" and common.is_name(n.args[0].elt, fn_var):
+                    azm = G.Atomizer()
+                    want = [c for c in reg_calls if common.is_name(c.args[0], fn_var)]
+                    test = G.f_and(*[azm.formula(t_) for t_ in gen.ifs]) if gen.ifs else G.T
+                    if want and G.equivalent(test, azm.formula(want[0]))[0]:
+                        OUTV = norm_src(n.func.value)
                         retn = [r for r in own_nodes(ga.node) if isinstance(r, ast.Return)]
                         mem_ok = bool(retn) and all(norm_src(r.value) == OUTV for r in retn)
     run.ob("R3-filter", "registry.get_analyzers/collects-marked-functions", mem_ok, w(lp),
@@ -201,9 +221,13 @@ def check(run):
             floop = fl[0]
             FN = floop.target.id
             opens = [n for n in ast.walk(floop) if isinstance(n, ast.Call) and common.is_name(n.func, "open")]
+            path_arg = None
+            if len(opens) == 1 and opens[0].args:
+                envo = common.block_env(floop.body, common.enclosing_stmt(opens[0])) or {}
+                path_arg = G.Atomizer(subst={k: v for k, v in envo.items() if k not in (SUBDIR, FN)}).inline(opens[0].args[0])
             ok_open = len(opens) == 1 and len(opens[0].args) >= 2 and prog.try_fold(rm, opens[0].args[1]) == "rb" and \
-                isinstance(opens[0].args[0], ast.Call) and prog.dotted(rm, opens[0].args[0].func) == "os.path.join" and \
-                [norm_src(a) for a in opens[0].args[0].args] == [SUBDIR, FN]
+                isinstance(path_arg, ast.Call) and prog.dotted(rm, path_arg.func) == "os.path.join" and \
+                [norm_src(a) for a in path_arg.args] == [SUBDIR, FN]
             run.ob("R4-keyword-walk", "registry.get_keywords/open-binary", ok_open, w(opens[0]) if opens else w(floop),
                    "each file is opened in binary mode at <its directory>/<its name>", f"`{norm_src(opens[0]) if opens else ''}`", mech="call-shape match")
             # keywords = set(file.read().splitlines()) ; discard(b"")
